@@ -308,6 +308,7 @@ def rule_e(prog, rep):
     else:
         rep.violation('C10.e', 'flush-siblings', '', f'synchronous {sorted(seqs["synchronous"])} vs asynchronous {sorted(seqs["asynchronous"])}',
                       key='C10.e/siblings-differ')
+    _lock_latch(prog, rep, 'C10.e')
     # the persistence lock is consulted by both
     for fname in ('synchronous', 'asynchronous'):
         crate = prog.crate(WB)
@@ -317,6 +318,27 @@ def rule_e(prog, rep):
         else:
             rep.violation('C10.e', f'{fname}:lock', f.loc, 'flush does not consult the persistence lock: an empty store could overwrite '
                           'the files before the load', key=f'C10.e/{fname}/lock')
+
+
+def _lock_latch(prog, rep, rid):
+    """the persistence latch: unlock_persistence() stores false into the static that is_persistence_locked() loads; nothing else writes it"""
+    crate = prog.crate(WB)
+    u = crate.fn('persistence::unlock_persistence')
+    l = crate.fn('persistence::is_persistence_locked')
+    st = [nd for nd, a in crate.walk_fn(u) if nd.get('k') == 'call' and short(callee(nd)) == 'store' and 'PERSISTENCE_LOCKED' in str(nd['args'][0])[:400]]
+    ld = [nd for nd, a in crate.walk_fn(l) if nd.get('k') == 'call' and short(callee(nd)) == 'load' and 'PERSISTENCE_LOCKED' in str(nd['args'][0])[:400]]
+    good = len(st) == 1 and st[0]['args'][1].get('k') == 'lit' and st[0]['args'][1]['v'].get('v') is False and len(ld) == 1
+    writers = []
+    for f in crate.top_fns():
+        for nd, a in crate.walk_fn(f):
+            if nd.get('k') == 'call' and short(callee(nd)) in ('store', 'swap', 'fetch_or', 'fetch_and', 'compare_exchange') and nd['args'] and \
+                    'PERSISTENCE_LOCKED' in str(nd['args'][0])[:400] and f.path != u.path:
+                writers.append(f.path)
+    if good and not writers:
+        rep.ok(rid, 'persistence-latch', u.loc, 'unlock_persistence(): PERSISTENCE_LOCKED <- false; read by is_persistence_locked(); no other writer')
+    else:
+        rep.violation(rid, 'persistence-latch', u.loc, f'unlock_persistence does not release the latch is_persistence_locked reads (other writers: {writers})',
+                      key=f'{rid}/persistence-latch')
 
 
 def rule_f(prog, rep):
